@@ -43,7 +43,7 @@ pub struct Tracer {
 impl Tracer {
     pub fn new() -> Tracer { Tracer::default() }
 
-    fn val(&mut self, bytes: &[u8]) -> u64 {
+    pub fn val(&mut self, bytes: &[u8]) -> u64 {
         let n = self.vals.len() as u64 + 1;
         *self.vals.entry(bytes.to_vec()).or_insert(n)
     }
